@@ -44,7 +44,7 @@ theorem knows_good (s : Scene) (he : s.eph ∉ s.others) (hl : s.long ∉ s.othe
     rintro ⟨h1, h2⟩; exact ih ⟨hp.mem_iff.2 h1, hp.mem_iff.2 h2⟩
   | kdf c _ ih => exact ih
   | hash _ _ => trivial
-  | seal _ _ ihk ihm => exact Or.inr ⟨ihk, ihm⟩
+  | enc _ _ ihk ihm => exact Or.inr ⟨ihk, ihm⟩
   | open_ _ _ ihs ihk =>
     rcases ihs with ⟨rfl, _⟩ | ⟨_, hm⟩
     · exact absurd ihk (key_not_good s)
